@@ -57,6 +57,8 @@ pub struct Scn {
     pub style: Style,
     /// send credit every stream of the h3 end starts with (further credit is granted by scheduler moves)
     pub credit: u64,
+    /// the transport hands out waiting request streams newest first
+    pub newest_first: bool,
 }
 
 const LIMIT: u64 = 400;
@@ -298,7 +300,7 @@ fn peer_message(server_role: bool, k: usize, r: &Req) -> Vec<u8> {
 }
 
 fn scn_json(s: &Scn) -> Value {
-    json!({"role": if s.server { "server" } else { "client" }, "style": format!("{:?}", s.style), "credit": if s.credit == UNLIMITED { -1 } else { s.credit as i64 }, "reqs": s.reqs.iter().map(|r| format!("{:?} body={} pieces={}", r.fault, r.body_len, r.pieces)).collect::<Vec<_>>()})
+    json!({"role": if s.server { "server" } else { "client" }, "style": format!("{:?}", s.style), "credit": if s.credit == UNLIMITED { -1 } else { s.credit as i64 }, "newest_first": s.newest_first, "reqs": s.reqs.iter().map(|r| format!("{:?} body={} pieces={}", r.fault, r.body_len, r.pieces)).collect::<Vec<_>>()})
 }
 
 pub fn run_scn(s: &Scn, merge: &mut Tape, sched: &mut Tape, ctx: &mut Ctx) -> Verdict {
@@ -309,6 +311,7 @@ pub fn run_scn(s: &Scn, merge: &mut Tape, sched: &mut Tape, ctx: &mut Ctx) -> Ve
     let raw = side.other();
     net.set_raw(raw);
     net.lock().default_credit[side.idx()] = s.credit;
+    net.lock().ends[side.idx()].accept_newest_first = s.newest_first;
     let o: Shared<Obs> = shared(Obs { reqs: vec![ReqObs::default(); s.reqs.len()], ..Default::default() });
     let mut ex = Exec::new();
     let sp = ex.spawner.clone();
@@ -575,7 +578,7 @@ fn gen(t: &mut Tape) -> Scn {
         4 => t.int(1, 16),
         _ => t.int(1, 3000),
     };
-    Scn { server, reqs, style, credit }
+    Scn { server, reqs, style, credit, newest_first: t.chance(1, 4) }
 }
 
 fn exhaustive(ctx: &mut Ctx, shard: usize, nshards: usize) -> Verdict {
@@ -601,8 +604,8 @@ fn exhaustive(ctx: &mut Ctx, shard: usize, nshards: usize) -> Verdict {
                             for credit in [UNLIMITED, 5] {
                                 let mut merge = Tape::new(a);
                                 let mut sched = Tape::new(if style == Style::Random { b } else { &[] });
-                                run_scn(&Scn { server, reqs: reqs.clone(), style, credit }, &mut merge, &mut sched, ctx).map_err(|mut e| {
-                                    e.direct = Some(json!({"server": server, "style": format!("{style:?}"), "credit": credit.to_string(), "cells": cells, "reqs": reqs.iter().map(req_json).collect::<Vec<_>>(), "decoded": e.case}));
+                                run_scn(&Scn { server, reqs: reqs.clone(), style, credit, newest_first: credit != UNLIMITED && si == 2 }, &mut merge, &mut sched, ctx).map_err(|mut e| {
+                                    e.direct = Some(json!({"server": server, "style": format!("{style:?}"), "credit": credit.to_string(), "newest_first": credit != UNLIMITED && si == 2, "cells": cells, "reqs": reqs.iter().map(req_json).collect::<Vec<_>>(), "decoded": e.case}));
                                     e
                                 })?;
                             }
@@ -675,5 +678,5 @@ fn run_direct(d: &Value, ctx: &mut Ctx) -> Verdict {
     let mut merge = Tape::new(a);
     let mut sched = Tape::new(if style == Style::Random { b } else { &[] });
     let credit = d["credit"].as_str().and_then(|s| s.parse().ok()).unwrap_or(UNLIMITED);
-    run_scn(&Scn { server: d["server"].as_bool().unwrap_or(true), reqs, style, credit }, &mut merge, &mut sched, ctx)
+    run_scn(&Scn { server: d["server"].as_bool().unwrap_or(true), reqs, style, credit, newest_first: d["newest_first"].as_bool().unwrap_or(false) }, &mut merge, &mut sched, ctx)
 }
